@@ -58,12 +58,12 @@ var (
 	flagN       = flag.Int("verif.n", 0, "case budget for non-rapid enumerations (0 = default of the test)")
 )
 
-func Replay() string  { return *flagReplay }
-func Shard() int      { return *flagShard }
-func NShards() int    { return *flagNShards }
-func Tier() string    { return *flagTier }
-func Thorough() bool  { return *flagTier == "thorough" }
-func Seed() int64     { return *flagSeed }
+func Replay() string { return *flagReplay }
+func Shard() int     { return *flagShard }
+func NShards() int   { return *flagNShards }
+func Tier() string   { return *flagTier }
+func Thorough() bool { return *flagTier == "thorough" }
+func Seed() int64    { return *flagSeed }
 func Budget(def int) int {
 	if *flagN > 0 {
 		return *flagN
@@ -151,19 +151,19 @@ func LoadCase(path string, c interface{}) (*FailFile, error) {
 // ---------------------------------------------------------------- evidence
 
 type Ev struct {
-	mu        sync.Mutex
-	Test      string
-	Prop      string
-	Rule      string
-	start     time.Time
-	evals     int
-	nontriv   map[uint64]struct{}
-	labels    map[string]int
-	samples   []json.RawMessage
-	knownHits map[string]int
-	extra     map[string]interface{}
+	mu         sync.Mutex
+	Test       string
+	Prop       string
+	Rule       string
+	start      time.Time
+	evals      int
+	nontriv    map[uint64]struct{}
+	labels     map[string]int
+	samples    []json.RawMessage
+	knownHits  map[string]int
+	extra      map[string]interface{}
 	exhaustive bool
-	space     int64
+	space      int64
 }
 
 func NewEv(prop, test, rule string) *Ev {
